@@ -29,4 +29,16 @@ CHECKS = {
                 "differentially each run); sizes < 2^62. Defect D1 (mark not rebased on realign) was found by this check and fixed in /repo.",
         "technique": "Coq proof (invariant by induction over histories) + model/implementation correspondence",
     },
+    "C11": {
+        "text": "Coq theorems (Props/C11.v) over a Gallina model of deferred_writer.rs and write/text.rs: for every operation history and "
+                "every non-failing sink schedule (short writes, Interrupted) the sink holds exactly the written stream after flush/drop; "
+                "for every sink the sink+buffer bytes are an in-order duplicate-free selection of the written stream, writes never "
+                "fail, a parked error blocks all sink calls until reported exactly once; the decimal text of every integer is "
+                "canonical (proved for all Z, all 12 types' ranges). Model tied to the code by the wr correspondence stream (debug "
+                "and release) and an implementation-only oracle used as search.",
+        "design_ref": "DESIGN.md 2/C11",
+        "note": "Trusted: Coq kernel; extraction; hand model of the writer, of Write::write_all and of itoap's output (validated "
+                "differentially each run); Vec capacity = 16384 exactly.",
+        "technique": "Coq proof (invariants by induction over histories and over write_all) + model/implementation correspondence",
+    },
 }
